@@ -64,18 +64,20 @@ theorem LiveInv.final {F : Filter φ} {lim : Nat} {φ₀ : φ} {D T : List UInt8
 
 /-- The invariant of `lzma_simple_coder` relative to `X` (the whole byte stream the source delivers: the caller's input when there is
     no next coder, the next coder's total output otherwise), the part `D` of it delivered so far and the output so far `O`. -/
-structure SInv (F : Filter φ) (lim : Nat) (φ₀ : φ) (X : List UInt8) (s : Simple φ ν) (D O : List UInt8) : Prop where
+structure SInv (F : Filter φ) (lim : Nat) (φ₀ : φ) (X : List UInt8) (E : ν → Prop) (s : Simple φ ν) (D O : List UInt8) : Prop where
   bound : X.length < lim
   ord1 : s.pos ≤ s.filtered
   ord2 : s.filtered ≤ s.buffer.length
   live : s.endReached = false →
     LiveInv F lim φ₀ D (O ++ (s.buffer.take s.filtered).drop s.pos) s.filt (s.buffer.drop s.filtered)
   dead : s.endReached = true → D = X ∧ O ++ s.buffer.drop s.pos = (F φ₀ X).1 ∧ s.filtered = s.buffer.length
+  /-- once the end was reached the source is in an "ended" state (`E`) -/
+  deadE : s.endReached = true → E s.next
 
-theorem SInv.init (F : Filter φ) (lim : Nat) (φ₀ : φ) (X : List UInt8) (hlim : X.length < lim) (n₀ : ν) :
-    SInv F lim φ₀ X (Simple.init φ₀ n₀) [] [] :=
+theorem SInv.init (F : Filter φ) (lim : Nat) (φ₀ : φ) (X : List UInt8) (E : ν → Prop) (hlim : X.length < lim) (n₀ : ν) :
+    SInv F lim φ₀ X E (Simple.init φ₀ n₀) [] [] :=
   ⟨hlim, by simp [Simple.init], by simp [Simple.init], fun _ => by simpa [Simple.init] using LiveInv.init F lim φ₀,
-   fun h => by simp [Simple.init] at h⟩
+   fun h => by simp [Simple.init] at h, fun h => by simp [Simple.init] at h⟩
 
 theorem drop_take_self (l : List UInt8) (n : Nat) : (l.take n).drop n = [] := by
   apply List.drop_eq_nil_of_le; simp [List.length_take]; omega
@@ -127,21 +129,21 @@ theorem runPiece_eq {σ : Type} (c : Coder σ) (fin : Bool) (r : Run σ) (inLen 
     appended, and reports the end only when the whole stream `X` has been delivered.
     Instances: no next coder (`G () D rest := D ++ rest = input`, `X = input`), and any byte machine as next coder
     (`G (st, eof) D rest := Reach … input D st eof rest`, `X` = what the machine has written when it is done). -/
-structure SrcLaw (src : Src ν) (fin : Bool) (X : List UInt8) (G : ν → List UInt8 → List UInt8 → Prop) : Prop where
+structure SrcLaw (src : Src ν) (fin : Bool) (X : List UInt8) (G : ν → List UInt8 → List UInt8 → Prop) (E : ν → Prop) : Prop where
   pull : ∀ n D inp tail cap (finish : Bool), G n D (inp ++ tail) → (finish = true → tail = [] ∧ fin = true) →
     (src.pull n inp cap finish).2.2.1 ≤ inp.length
     ∧ G (src.pull n inp cap finish).1 (D ++ (src.pull n inp cap finish).2.1) (inp.drop (src.pull n inp cap finish).2.2.1 ++ tail)
-    ∧ ((src.pull n inp cap finish).2.2.2 = true → D ++ (src.pull n inp cap finish).2.1 = X)
+    ∧ ((src.pull n inp cap finish).2.2.2 = true → D ++ (src.pull n inp cap finish).2.1 = X ∧ E (src.pull n inp cap finish).1)
 
 section stages
-variable {F : Filter φ} {umax lim : Nat} (hc : BcjContract F umax lim) {φ₀ : φ} {X : List UInt8}
+variable {F : Filter φ} {umax lim : Nat} (hc : BcjContract F umax lim) {φ₀ : φ} {X : List UInt8} {E : ν → Prop}
 include hc
 
 theorem stageACore_inv (s : Simple φ ν) (n' : ν) (copied : List UInt8) (used : Nat) (ended : Bool) (D O out0 : List UInt8)
-    (hinv : SInv F lim φ₀ X s D O) (hend : s.endReached = false) (hpos : s.pos = s.filtered)
-    (hfin : ended = true → D ++ copied = X) :
+    (hinv : SInv F lim φ₀ X E s D O) (hend : s.endReached = false) (hpos : s.pos = s.filtered)
+    (hfin : ended = true → D ++ copied = X ∧ E n') :
     ∃ new, (simpleStageACore F s (s.buffer.drop s.pos) (n', copied, used, ended) out0).2.1 = out0 ++ new
-      ∧ SInv F lim φ₀ X (simpleStageACore F s (s.buffer.drop s.pos) (n', copied, used, ended) out0).1 (D ++ copied) (O ++ new)
+      ∧ SInv F lim φ₀ X E (simpleStageACore F s (s.buffer.drop s.pos) (n', copied, used, ended) out0).1 (D ++ copied) (O ++ new)
       ∧ (simpleStageACore F s (s.buffer.drop s.pos) (n', copied, used, ended) out0).2.2 = used
       ∧ (simpleStageACore F s (s.buffer.drop s.pos) (n', copied, used, ended) out0).1.next = n'
       ∧ (simpleStageACore F s (s.buffer.drop s.pos) (n', copied, used, ended) out0).1.pos = 0
@@ -154,10 +156,10 @@ theorem stageACore_inv (s : Simple φ ν) (n' : ν) (copied : List UInt8) (used 
   cases ended with
   | true =>
     simp only [simpleStageACore, hend, Bool.false_or, if_true]
-    refine ⟨_, rfl, ⟨hinv.bound, by simp, by simp, fun h => by simp at h, fun _ => ⟨hfin rfl, ?_, by simp⟩⟩, by simp, by simp, by simp,
-      by simp, by simp⟩
-    have hf := hlive.final copied (by rw [hfin rfl]; exact hinv.bound)
-    rw [← hfin rfl, hf]
+    refine ⟨_, rfl, ⟨hinv.bound, by simp, by simp, fun h => by simp at h, fun _ => ⟨(hfin rfl).1, ?_, by simp⟩, fun _ => (hfin rfl).2⟩,
+      by simp, by simp, by simp, by simp, by simp⟩
+    have hf := hlive.final copied (by rw [(hfin rfl).1]; exact hinv.bound)
+    rw [← (hfin rfl).1, hf]
     simp only [List.drop_zero, List.append_nil]
     congr 1
     split
@@ -166,7 +168,8 @@ theorem stageACore_inv (s : Simple φ ν) (n' : ν) (copied : List UInt8) (used 
     · rfl
   | false =>
     simp only [simpleStageACore, hend, Bool.false_or, Bool.false_eq_true, if_false]
-    refine ⟨_, rfl, ⟨hinv.bound, by simp, by simp, fun _ => ?_, fun h => by simp at h⟩, by simp, by simp, by simp, by simp, by simp⟩
+    refine ⟨_, rfl, ⟨hinv.bound, by simp, by simp, fun _ => ?_, fun h => by simp at h, fun h => by simp at h⟩, by simp, by simp, by simp,
+      by simp, by simp⟩
     simp only [List.take_zero, List.drop_zero, List.append_nil]
     split
     · rename_i hreg
@@ -176,12 +179,12 @@ theorem stageACore_inv (s : Simple φ ν) (n' : ν) (copied : List UInt8) (used 
       simpa [hU] using hlive
     · exact hlive.step hc copied
 
-theorem stageA_inv {src : Src ν} {fin : Bool} {G : ν → List UInt8 → List UInt8 → Prop} (hl : SrcLaw src fin X G)
+theorem stageA_inv {src : Src ν} {fin : Bool} {G : ν → List UInt8 → List UInt8 → Prop} (hl : SrcLaw src fin X G E)
     (s : Simple φ ν) (D O out0 inp tail : List UInt8) (cap : Nat) (finish : Bool)
-    (hinv : SInv F lim φ₀ X s D O) (hG : G s.next D (inp ++ tail)) (hend : s.endReached = false) (hpos : s.pos = s.filtered)
+    (hinv : SInv F lim φ₀ X E s D O) (hG : G s.next D (inp ++ tail)) (hend : s.endReached = false) (hpos : s.pos = s.filtered)
     (hfin : finish = true → tail = [] ∧ fin = true) :
     ∃ new C, (simpleStageA F src s inp cap finish out0).2.1 = out0 ++ new
-      ∧ SInv F lim φ₀ X (simpleStageA F src s inp cap finish out0).1 (D ++ C) (O ++ new)
+      ∧ SInv F lim φ₀ X E (simpleStageA F src s inp cap finish out0).1 (D ++ C) (O ++ new)
       ∧ (simpleStageA F src s inp cap finish out0).2.2 ≤ inp.length
       ∧ G (simpleStageA F src s inp cap finish out0).1.next (D ++ C) (inp.drop (simpleStageA F src s inp cap finish out0).2.2 ++ tail)
       ∧ (simpleStageA F src s inp cap finish out0).1.pos = 0
@@ -197,19 +200,19 @@ theorem stageA_inv {src : Src ν} {fin : Bool} {G : ν → List UInt8 → List U
     refine ⟨new, copied, h1, h2, by rw [h3]; exact p1, ?_, h5, h6, h7⟩
     rw [h3, h4]; exact p2
   · refine ⟨[], [], by simp, ?_, by simp, by simpa using hG, rfl, rfl, fun h => by simp [hend] at h⟩
-    refine ⟨hinv.bound, by simp, by simp, fun _ => ?_, fun h => by simp [hend] at h⟩
+    refine ⟨hinv.bound, by simp, by simp, fun _ => ?_, fun h => by simp [hend] at h, fun h => by simp [hend] at h⟩
     have hlive := hinv.live hend
     rw [hpos, drop_take_self, List.append_nil] at hlive
     simpa [hpos] using hlive
 
 theorem stageBCore_inv (a : Simple φ ν × List UInt8 × Nat) (n' : ν) (copied : List UInt8) (used : Nat) (ended : Bool)
     (D O : List UInt8) (cap : Nat)
-    (hinv : SInv F lim φ₀ X a.1 D O) (hp : a.1.pos = 0) (hf : a.1.filtered = 0) (hend : a.1.endReached = false)
-    (hfin : ended = true → D ++ copied = X) :
+    (hinv : SInv F lim φ₀ X E a.1 D O) (hp : a.1.pos = 0) (hf : a.1.filtered = 0) (hend : a.1.endReached = false)
+    (hfin : ended = true → D ++ copied = X ∧ E n') :
     ∃ new, (simpleStageBCore F a (n', copied, used, ended) cap).2.1 = a.2.1 ++ new
       ∧ (simpleStageBCore F a (n', copied, used, ended) cap).2.2 = a.2.2 + used
       ∧ (simpleStageBCore F a (n', copied, used, ended) cap).1.next = n'
-      ∧ SInv F lim φ₀ X (simpleStageBCore F a (n', copied, used, ended) cap).1 (D ++ copied) (O ++ new) := by
+      ∧ SInv F lim φ₀ X E (simpleStageBCore F a (n', copied, used, ended) cap).1 (D ++ copied) (O ++ new) := by
   have hlive := hinv.live hend
   simp only [hp, hf, List.take_zero, List.drop_zero, List.append_nil] at hlive
   have hlen := hc.len a.1.filt (a.1.buffer ++ copied)
@@ -217,30 +220,31 @@ theorem stageBCore_inv (a : Simple φ ν × List UInt8 × Nat) (n' : ν) (copied
   cases ended with
   | true =>
     simp only [simpleStageBCore, hend, Bool.false_or, if_true]
-    refine ⟨_, rfl, by simp, by simp, ⟨hinv.bound, Nat.min_le_left _ _, by simp, fun h => by simp at h, fun _ => ⟨hfin rfl, ?_, by simp⟩⟩⟩
-    have hfz := hlive.final copied (by rw [hfin rfl]; exact hinv.bound)
-    rw [← hfin rfl, hfz]
+    refine ⟨_, rfl, by simp, by simp, ⟨hinv.bound, Nat.min_le_left _ _, by simp, fun h => by simp at h, fun _ => ⟨(hfin rfl).1, ?_, by simp⟩,
+      fun _ => (hfin rfl).2⟩⟩
+    have hfz := hlive.final copied (by rw [(hfin rfl).1]; exact hinv.bound)
+    rw [← (hfin rfl).1, hfz]
     simp only [List.append_assoc]
     congr 1
     exact List.take_append_drop _ _
   | false =>
     simp only [simpleStageBCore, hend, Bool.false_or, Bool.false_eq_true, if_false]
-    refine ⟨_, rfl, by simp, by simp, ⟨hinv.bound, Nat.min_le_left _ _, ?_, fun _ => ?_, fun h => by simp at h⟩⟩
+    refine ⟨_, rfl, by simp, by simp, ⟨hinv.bound, Nat.min_le_left _ _, ?_, fun _ => ?_, fun h => by simp at h, fun h => by simp at h⟩⟩
     · simp only; rw [hlen]; exact hcnt
     · have hs := hlive.step hc copied
       simp only
       rw [List.append_assoc, take_take_drop _ _ _ (Nat.min_le_left _ _)]
       exact hs
 
-theorem stageB_inv {src : Src ν} {fin : Bool} {G : ν → List UInt8 → List UInt8 → Prop} (hl : SrcLaw src fin X G)
+theorem stageB_inv {src : Src ν} {fin : Bool} {G : ν → List UInt8 → List UInt8 → Prop} (hl : SrcLaw src fin X G E)
     (allocated : Nat) (a : Simple φ ν × List UInt8 × Nat) (D O inp tail : List UInt8) (cap : Nat)
-    (finish : Bool) (hinv : SInv F lim φ₀ X a.1 D O) (hG : G a.1.next D (inp.drop a.2.2 ++ tail)) (hp : a.1.pos = 0)
+    (finish : Bool) (hinv : SInv F lim φ₀ X E a.1 D O) (hG : G a.1.next D (inp.drop a.2.2 ++ tail)) (hp : a.1.pos = 0)
     (hf : a.1.filtered = 0) (he : a.1.endReached = true → a.1.buffer = []) (hfin : finish = true → tail = [] ∧ fin = true) :
     ∃ new C k, (simpleStageB F src allocated a inp cap finish).2.1 = a.2.1 ++ new
       ∧ (simpleStageB F src allocated a inp cap finish).2.2 = a.2.2 + k
       ∧ k ≤ (inp.drop a.2.2).length
       ∧ G (simpleStageB F src allocated a inp cap finish).1.next (D ++ C) ((inp.drop a.2.2).drop k ++ tail)
-      ∧ SInv F lim φ₀ X (simpleStageB F src allocated a inp cap finish).1 (D ++ C) (O ++ new) := by
+      ∧ SInv F lim φ₀ X E (simpleStageB F src allocated a inp cap finish).1 (D ++ C) (O ++ new) := by
   simp only [simpleStageB]
   split
   · rename_i hne
@@ -256,20 +260,20 @@ theorem stageB_inv {src : Src ν} {fin : Bool} {G : ν → List UInt8 → List U
   · exact ⟨[], [], 0, by simp, by simp, by simp, by simpa using hG, by simpa using hinv⟩
 
 /-- One whole `simple_code()` call keeps the invariant. `C` = what the source delivered during this call. -/
-theorem simpleCode_inv {src : Src ν} {fin : Bool} {G : ν → List UInt8 → List UInt8 → Prop} (hl : SrcLaw src fin X G)
+theorem simpleCode_inv {src : Src ν} {fin : Bool} {G : ν → List UInt8 → List UInt8 → Prop} (hl : SrcLaw src fin X G E)
     (allocated : Nat) (s : Simple φ ν) (D O inp tail : List UInt8) (cap : Nat) (a : Action)
-    (hinv : SInv F lim φ₀ X s D O) (hG : G s.next D (inp ++ tail)) (hlive : ¬(s.endReached = true ∧ s.pos = s.buffer.length))
+    (hinv : SInv F lim φ₀ X E s D O) (hG : G s.next D (inp ++ tail)) (hlive : ¬(s.endReached = true ∧ s.pos = s.buffer.length))
     (ha : a ≠ .syncFlush) (hfin : (a == .finish) = true → tail = [] ∧ fin = true) :
     let r := simpleCode F src allocated s inp cap a
-    ∃ C, SInv F lim φ₀ X r.1 (D ++ C) (O ++ r.2.out) ∧ r.2.consumed ≤ inp.length
+    ∃ C, SInv F lim φ₀ X E r.1 (D ++ C) (O ++ r.2.out) ∧ r.2.consumed ≤ inp.length
       ∧ G r.1.next (D ++ C) (inp.drop r.2.consumed ++ tail)
       ∧ (r.2.ret = .streamEnd ↔ (r.1.endReached = true ∧ r.1.pos = r.1.buffer.length))
       ∧ (r.2.ret = .ok ∨ r.2.ret = .streamEnd) := by
   -- the part after the flush, from a state with pos = filtered, not ended, having written out0 in this call
-  have main : ∀ (s1 : Simple φ ν) (out0 : List UInt8), SInv F lim φ₀ X s1 D (O ++ out0) → s1.next = s.next → s1.endReached = false →
+  have main : ∀ (s1 : Simple φ ν) (out0 : List UInt8), SInv F lim φ₀ X E s1 D (O ++ out0) → s1.next = s.next → s1.endReached = false →
       s1.pos = s1.filtered →
       let r := simpleMain F src allocated s1 inp cap (a == .finish) out0
-      ∃ C, SInv F lim φ₀ X r.1 (D ++ C) (O ++ r.2.1) ∧ r.2.2 ≤ inp.length ∧ G r.1.next (D ++ C) (inp.drop r.2.2 ++ tail) := by
+      ∃ C, SInv F lim φ₀ X E r.1 (D ++ C) (O ++ r.2.1) ∧ r.2.2 ≤ inp.length ∧ G r.1.next (D ++ C) (inp.drop r.2.2 ++ tail) := by
     intro s1 out0 hi hn he hp
     simp only [simpleMain]
     obtain ⟨n1, C1, a1, a2, a3, a4, a5, a6, a7⟩ := stageA_inv hc hl s1 D (O ++ out0) out0 inp tail cap (a == .finish) hi
@@ -298,8 +302,8 @@ theorem simpleCode_inv {src : Src ν} {fin : Bool} {G : ν → List UInt8 → Li
     revert hn
     generalize min (s.filtered - s.pos) cap = n
     intro hn
-    have hi1 : SInv F lim φ₀ X { s with pos := s.pos + n } D (O ++ (s.buffer.drop s.pos).take n) := by
-      refine ⟨hinv.bound, by simp; omega, hinv.ord2, fun he => ?_, fun he => ?_⟩
+    have hi1 : SInv F lim φ₀ X E { s with pos := s.pos + n } D (O ++ (s.buffer.drop s.pos).take n) := by
+      refine ⟨hinv.bound, by simp; omega, hinv.ord2, fun he => ?_, fun he => ?_, fun he => hinv.deadE he⟩
       · have := hinv.live he
         simp only
         rw [List.append_assoc, flush_split _ _ _ _ (by omega)]
@@ -345,24 +349,24 @@ theorem simpleCode_inv {src : Src ν} {fin : Bool} {G : ν → List UInt8 → Li
     exact ⟨C, m1, m2, m3, retIff _⟩
 
 /-- Invariant of a sliced run of the simple coder over `input` (`total` = its length). -/
-structure SRunInv (F : Filter φ) (lim : Nat) (φ₀ : φ) (X : List UInt8) (G : ν → List UInt8 → List UInt8 → Prop) (total : Nat)
+structure SRunInv (F : Filter φ) (lim : Nat) (φ₀ : φ) (X : List UInt8) (G : ν → List UInt8 → List UInt8 → Prop) (E : ν → Prop) (total : Nat)
     (r : Run (Simple φ ν)) : Prop where
-  split : ∃ D, G r.state.next D r.rest ∧ SInv F lim φ₀ X r.state D r.out
+  split : ∃ D, G r.state.next D r.rest ∧ SInv F lim φ₀ X E r.state D r.out
   len : r.consumed + r.rest.length = total
   retOk : r.ret = .ok → ¬(r.state.endReached = true ∧ r.state.pos = r.state.buffer.length)
   retEnd : r.ret ≠ .ok → r.ret = .streamEnd ∧ r.state.endReached = true ∧ r.state.pos = r.state.buffer.length
 
 omit hc in
-theorem SRunInv.init (F : Filter φ) (lim : Nat) (φ₀ : φ) (X : List UInt8) (G : ν → List UInt8 → List UInt8 → Prop) (input : List UInt8)
-    (hlim : X.length < lim) (n₀ : ν) (hG : G n₀ [] input) :
-    SRunInv F lim φ₀ X G input.length (Run.init (Simple.init φ₀ n₀) input) :=
-  ⟨⟨[], by simpa [Run.init, Simple.init] using hG, by simpa [Run.init] using SInv.init F lim φ₀ X hlim n₀⟩, by simp [Run.init],
+theorem SRunInv.init (F : Filter φ) (lim : Nat) (φ₀ : φ) (X : List UInt8) (G : ν → List UInt8 → List UInt8 → Prop) (E : ν → Prop)
+    (input : List UInt8) (hlim : X.length < lim) (n₀ : ν) (hG : G n₀ [] input) :
+    SRunInv F lim φ₀ X G E input.length (Run.init (Simple.init φ₀ n₀) input) :=
+  ⟨⟨[], by simpa [Run.init, Simple.init] using hG, by simpa [Run.init] using SInv.init F lim φ₀ X E hlim n₀⟩, by simp [Run.init],
    fun _ => by simp [Run.init, Simple.init], fun h => by simp [Run.init] at h⟩
 
-theorem SRunInv.piece {src : Src ν} {fin : Bool} {G : ν → List UInt8 → List UInt8 → Prop} {total : Nat} (hl : SrcLaw src fin X G)
-    (allocated : Nat) {r : Run (Simple φ ν)} (h : SRunInv F lim φ₀ X G total r)
+theorem SRunInv.piece {src : Src ν} {fin : Bool} {G : ν → List UInt8 → List UInt8 → Prop} {total : Nat} (hl : SrcLaw src fin X G E)
+    (allocated : Nat) {r : Run (Simple φ ν)} (h : SRunInv F lim φ₀ X G E total r)
     (hok : r.ret = .ok) (inLen cap : Nat) :
-    SRunInv F lim φ₀ X G total (runPiece (simpleCoder F src allocated) fin r inLen cap) := by
+    SRunInv F lim φ₀ X G E total (runPiece (simpleCoder F src allocated) fin r inLen cap) := by
   obtain ⟨D, hG, hinv⟩ := h.split
   have hact : pieceAct fin r.rest.length inLen ≠ Action.syncFlush := by
     unfold pieceAct; split <;> simp
@@ -401,9 +405,9 @@ theorem SRunInv.piece {src : Src ν} {fin : Bool} {G : ν → List UInt8 → Lis
     · exact absurd k5 hr
     · exact ⟨k5, k4.mp k5⟩
 
-theorem SRunInv.sliced {src : Src ν} {fin : Bool} {G : ν → List UInt8 → List UInt8 → Prop} {total : Nat} (hl : SrcLaw src fin X G)
+theorem SRunInv.sliced {src : Src ν} {fin : Bool} {G : ν → List UInt8 → List UInt8 → Prop} {total : Nat} (hl : SrcLaw src fin X G E)
     (allocated : Nat) (sl : List (Nat × Nat)) {r : Run (Simple φ ν)}
-    (h : SRunInv F lim φ₀ X G total r) : SRunInv F lim φ₀ X G total (runSliced (simpleCoder F src allocated) fin sl r) := by
+    (h : SRunInv F lim φ₀ X G E total r) : SRunInv F lim φ₀ X G E total (runSliced (simpleCoder F src allocated) fin sl r) := by
   induction sl generalizing r with
   | nil => simpa [runSliced] using h
   | cons p sl ih =>
@@ -417,9 +421,9 @@ theorem SRunInv.sliced {src : Src ν} {fin : Bool} {G : ν → List UInt8 → Li
 omit hc in
 /-- What a run has written so far is a prefix of the filter applied to what the source has delivered so far (if that is below the
     length limit); at `LZMA_STREAM_END` the source has delivered all of `X` and the output is the filter applied to `X`. -/
-theorem SRunInv.result {G : ν → List UInt8 → List UInt8 → Prop} {total : Nat} {r : Run (Simple φ ν)} (h : SRunInv F lim φ₀ X G total r) :
+theorem SRunInv.result {G : ν → List UInt8 → List UInt8 → Prop} {total : Nat} {r : Run (Simple φ ν)} (h : SRunInv F lim φ₀ X G E total r) :
     (∃ D, G r.state.next D r.rest ∧ (D.length < lim → ∃ o, (F φ₀ D).1 = r.out ++ o))
-      ∧ (r.ret = .streamEnd → r.out = (F φ₀ X).1 ∧ G r.state.next X r.rest) := by
+      ∧ (r.ret = .streamEnd → r.out = (F φ₀ X).1 ∧ G r.state.next X r.rest ∧ E r.state.next) := by
   obtain ⟨D, hG, hinv⟩ := h.split
   constructor
   · refine ⟨D, hG, fun hD => ?_⟩
@@ -437,7 +441,7 @@ theorem SRunInv.result {G : ν → List UInt8 → List UInt8 → Prop} {total : 
     obtain ⟨_, e1, e2⟩ := h.retEnd (by rw [hr]; simp)
     obtain ⟨d1, d2, _⟩ := hinv.dead e1
     rw [e2, List.drop_length, List.append_nil] at d2
-    exact ⟨d2, by rw [← d1]; exact hG⟩
+    exact ⟨d2, by rw [← d1]; exact hG, hinv.deadE e1⟩
 
 end stages
 
@@ -446,7 +450,8 @@ end stages
 /-- `copy_or_code()` with `next.code == NULL`: the delivered bytes are the consumed input. -/
 def NullG (input : List UInt8) : Unit → List UInt8 → List UInt8 → Prop := fun _ D rest => D ++ rest = input
 
-theorem nullLaw (endsAtFinish : Bool) (fin : Bool) (input : List UInt8) : SrcLaw (Src.null endsAtFinish) fin input (NullG input) := by
+theorem nullLaw (endsAtFinish : Bool) (fin : Bool) (input : List UInt8) :
+    SrcLaw (Src.null endsAtFinish) fin input (NullG input) (fun _ => True) := by
   constructor
   intro n D inp tail cap finish hG hfin
   simp only [Src.null, NullG] at hG ⊢
@@ -454,7 +459,7 @@ theorem nullLaw (endsAtFinish : Bool) (fin : Bool) (input : List UInt8) : SrcLaw
   revert hn
   generalize min inp.length cap = k
   intro hn
-  refine ⟨hn, ?_, fun he => ?_⟩
+  refine ⟨hn, ?_, fun he => ⟨?_, trivial⟩⟩
   · rw [List.append_assoc, ← List.append_assoc (inp.take k), List.take_append_drop]; exact hG
   · simp only [Bool.and_eq_true, decide_eq_true_eq] at he
     obtain ⟨⟨_, hf⟩, hk⟩ := he
@@ -466,7 +471,7 @@ theorem nullLaw (endsAtFinish : Bool) (fin : Bool) (input : List UInt8) : SrcLaw
 /-- What a run with no next coder has written so far is a prefix of the whole-input result; at `LZMA_STREAM_END` it is all of it and
     all input has been consumed. -/
 theorem SRunInv.result_null {F : Filter φ} {lim : Nat} {φ₀ : φ} {input : List UInt8} {r : Run (Simple φ Unit)}
-    (h : SRunInv F lim φ₀ input (NullG input) input.length r) :
+    (h : SRunInv F lim φ₀ input (NullG input) (fun _ => True) input.length r) :
     (∃ o, (F φ₀ input).1 = r.out ++ o) ∧ (r.ret = .streamEnd → r.out = (F φ₀ input).1 ∧ r.consumed = input.length) := by
   obtain ⟨D, hG, hinv⟩ := h.split
   have hG' : D ++ r.rest = input := hG
@@ -481,7 +486,7 @@ theorem SRunInv.result_null {F : Filter φ} {lim : Nat} {φ₀ : φ} {input : Li
       obtain ⟨_, d2, _⟩ := hinv.dead he
       exact ⟨_, d2.symm⟩
   · intro hr
-    obtain ⟨e1, e2⟩ := h.result.2 hr
+    obtain ⟨e1, e2, _⟩ := h.result.2 hr
     refine ⟨e1, ?_⟩
     have e3 : input ++ r.rest = input := e2
     have hnil : r.rest = [] := by
